@@ -97,8 +97,8 @@ def race_run(ctx, shards):
             if any(any(x in fr for x in C02_FILES) for fr in frames):
                 mine.append(b)
             else:
-                key = " vs ".join(sorted(set(fr.split("/ecal/")[-1] if "/ecal/" in fr else os.path.basename(fr)
-                                              for fr in frames if "/runtime/" not in fr and "go-1." not in fr)[:4]))
+                names = sorted(set(fr.split("/ecal/")[-1] if "/ecal/" in fr else os.path.basename(fr) for fr in frames))
+                key = " vs ".join(names[:4])
                 other[key] = other.get(key, 0) + 1
         ctx.coverage["race_reports_in_c02_code"] = len(mine)
         ctx.coverage["race_reports_elsewhere"] = other
